@@ -241,6 +241,9 @@ class Ev:
             return tuple(self.ev(x) for x in e.elts)
         if isinstance(e, ast.List):
             return [self.ev(x) for x in e.elts]
+        if isinstance(e, ast.Slice):
+            return slice(self.ev(e.lower) if e.lower else None, self.ev(e.upper) if e.upper else None,
+                         self.ev(e.step) if e.step else None)
         if isinstance(e, ast.Dict):
             return {self.ev(k): self.ev(v) for k, v in zip(e.keys, e.values) if k is not None}
         if isinstance(e, ast.Set):
